@@ -35,7 +35,23 @@ enum Op {
     InstrumentMutate,
 }
 
+/// Drops `x` plainly or by the unwinding of a caught panic of its owner.
+fn drop_it<T>(x: T, unwinding: bool) {
+    if unwinding {
+        let r = std::panic::catch_unwind(std::panic::AssertUnwindSafe(move || {
+            let _owned = x;
+            std::panic::panic_any(ExpectedUnwind);
+        }));
+        assert!(r.is_err());
+    } else {
+        drop(x);
+    }
+}
+struct ExpectedUnwind;
+
 struct World {
+    /// environment of this replay: every drop happens by unwinding
+    unwinding: bool,
     sink: Sink,
     owner: Option<AppendAndCloseOnDrop<Work, Sink>>,
     handles: Vec<AppendAndCloseOnDropHandle<Work, Sink>>,
@@ -115,9 +131,10 @@ impl Model {
 }
 
 impl World {
-    fn new() -> World {
+    fn new(unwinding: bool) -> World {
         let sink = VecEntrySink::new();
         World {
+            unwinding,
             owner: Some(Work::default().append_on_drop(sink.clone())),
             sink,
             handles: vec![],
@@ -134,13 +151,13 @@ impl World {
                     self.handles.push(h)
                 }
             },
-            Op::DropHandle(i) => drop(self.handles.remove(i as usize)),
+            Op::DropHandle(i) => drop_it(self.handles.remove(i as usize), self.unwinding),
             Op::MkGuard => self.guards.push(self.owner.as_ref().unwrap().flush_guard()),
-            Op::DropGuard(i) => drop(self.guards.remove(i as usize)),
+            Op::DropGuard(i) => drop_it(self.guards.remove(i as usize), self.unwinding),
             Op::MkForce => self.forces.push(self.owner.as_ref().unwrap().force_flush_guard()),
-            Op::DropForce(i) => drop(self.forces.remove(i as usize)),
+            Op::DropForce(i) => drop_it(self.forces.remove(i as usize), self.unwinding),
             Op::Mutate => self.owner.as_mut().unwrap().a += 1,
-            Op::DropOwner => drop(self.owner.take()),
+            Op::DropOwner => drop_it(self.owner.take(), self.unwinding),
             Op::EmitOwner => metrique::instrument::Instrumented::from_parts((), self.owner.take().unwrap()).emit(),
             Op::InstrumentMutate => {
                 let o = self.owner.take().unwrap();
@@ -170,8 +187,14 @@ fn explore(st: &mut St, hist: &mut Vec<Op>, model: &Model, depth: usize, max: u8
         hist.push(op);
         let mut m2 = model.clone();
         m2.apply(op);
+        // twice: every drop plain / every drop by the unwinding of a caught panic
+        for unwinding in [false, true] {
+        // (unwinding costs microseconds per drop: that environment is searched two levels less deep)
+        if unwinding && hist.len() + 2 > depth {
+            continue;
+        }
         // rebuild the real world by replaying the history (live objects do not copy)
-        let mut w = World::new();
+        let mut w = World::new(unwinding);
         let mut seen: Vec<u64> = Vec::new();
         for o in hist.iter() {
             w.apply(*o);
@@ -182,21 +205,23 @@ fn explore(st: &mut St, hist: &mut Vec<Op>, model: &Model, depth: usize, max: u8
         }
         // compare after this step (earlier steps were compared by shorter histories)
         let expect: Vec<u64> = m2.appended.into_iter().collect();
+        let env = if unwinding { ":drops-by-unwinding" } else { "" };
         if seen != expect {
             let what = if seen.len() > expect.len() && expect.is_empty() { "appended-too-early" }
                 else if seen.len() > 1 { "appended-twice" }
                 else if seen.is_empty() { "not-appended-when-due" }
                 else { "mutation-lost" };
             st.v.add(
-                format!("seq:{what}"),
+                format!("seq:{what}{env}"),
                 format!("after {hist:?} the sink received {seen:?}, the statement predicts {expect:?}"),
-                json!({"history": hist.iter().map(|o| format!("{o:?}")).collect::<Vec<_>>(), "received": seen, "expected": expect}),
+                json!({"history": hist.iter().map(|o| format!("{o:?}")).collect::<Vec<_>>(), "received": seen, "expected": expect, "every_drop_by_unwinding_a_caught_panic": unwinding}),
             );
+        }
+        drop(w);
         }
         if m2.appended.is_some() {
             st.appended_histories += 1;
         }
-        drop(w);
         explore(st, hist, &m2, depth, max);
         hist.pop();
     }
@@ -204,6 +229,12 @@ fn explore(st: &mut St, hist: &mut Vec<Op>, model: &Model, depth: usize, max: u8
 
 fn main() {
     let mut rep = Report::from_args("C06", "model_checking");
+    let default_hook = std::panic::take_hook();
+    std::panic::set_hook(Box::new(move |info| {
+        if !info.payload().is::<ExpectedUnwind>() {
+            default_hook(info);
+        }
+    }));
     let depth: usize = rep.tier.pick(10, 12);
     let max: u8 = 2;
     let init = Model { owner_alive: true, ..Default::default() };
@@ -255,7 +286,7 @@ fn main() {
     rep.set("histories_in_which_the_entry_was_appended", ap);
     rep.set("depth", depth as u64);
     rep.set("exhaustive", true);
-    rep.set("explanation", "every sequence (up to the depth, at most 2 handles / 2 flush guards / 2 force-flush guards alive) of make-handle, drop-handle, make/drop flush guard, make/drop force-flush guard, mutate, drop-owner is replayed on the real AppendAndCloseOnDrop with a VecEntrySink; after every step the sink contents must equal the reference model's prediction (appended exactly when owner and handles are gone and all guards are gone or a force guard was dropped; value = number of mutations)");
+    rep.set("explanation", "every sequence (up to the depth, at most 2 handles / 2 flush guards / 2 force-flush guards alive) of make-handle, drop-handle, make/drop flush guard, make/drop force-flush guard, mutate (directly or inside Instrumented::instrument), drop-owner (plain or through Instrumented::emit) is replayed twice (every drop plain; every drop by the unwinding of a caught panic) on the real AppendAndCloseOnDrop with a VecEntrySink; after every step the sink contents must equal the reference model's prediction (appended exactly when owner and handles are gone and all guards are gone or a force guard was dropped; value = number of mutations)");
     rep.sample(json!({"history": ["MkGuard", "MkForce", "Mutate", "DropOwner", "DropForce(0)", "DropGuard(0)"], "expected": "appended once at DropForce(0) with a=1"}));
     rep.assume("flush guards and force-flush guards can only be created through the owner (the handle derefs to the entry, not to the wrapper)");
     rep.finish();
@@ -265,7 +296,7 @@ fn explore_one(st: &mut St, hist: &mut Vec<Op>, model: &Model, op: Op) {
     hist.push(op);
     let mut m2 = model.clone();
     m2.apply(op);
-    let mut w = World::new();
+    let mut w = World::new(false);
     let mut seen: Vec<u64> = Vec::new();
     for o in hist.iter() {
         w.apply(*o);
